@@ -2,6 +2,7 @@ import LibInj.Sqli.Check
 import LibInj.Sqli.Raw
 import LibInj.Xss.IsXSS
 import LibInj.Spec.SqliGrammar
+import LibInj.Spec.SqliGrammar2
 /-! Line-protocol driver: one operation per input line, one canonical observation per output line.
 The Go harness prints the same canonical form from the real package; the two streams are diffed. -/
 open LibInj LibInj.Sqli LibInj.H5 LibInj.Xss
@@ -60,6 +61,9 @@ def opC03List (kind : Bytes) : String :=
     else if kind == [112, 114] then Spec.SqliGrammar.prefixes
     else if kind == [116, 108] then Spec.SqliGrammar.tails
     else if kind == [115, 112] then Spec.SqliGrammar.seps
+    else if kind == [112, 115] then Spec.SqliGrammar.parenSkeletons.map (Spec.SqliGrammar.join [32])
+    else if kind == [112, 112] then Spec.SqliGrammar.parenPrefixes
+    else if kind == [116, 114] then Spec.SqliGrammar.truncations
     else []
   String.intercalate ";" (l.map fun b => if b.isEmpty then "-" else tohex b)
 
